@@ -261,7 +261,9 @@ class ReadWriteMultipleRegistersRequest(ModbusRequest):
         self.write_address, self.write_count, \
         self.write_byte_count = struct.unpack('>HHHHB', data[:9])
         self.write_registers  = []
-        for i in range(9, self.write_byte_count + 9, 2):
+        # only decode the registers that are completely present; a byte count
+        # that contradicts the write quantity is rejected by execute()
+        for i in range(9, min(self.write_byte_count + 9, len(data)) - 1, 2):
             register = struct.unpack('>H', data[i:i + 2])[0]
             self.write_registers.append(register)
 
